@@ -405,6 +405,52 @@ def compound_results():
     return bad, n
 
 
+def function_results():
+    """What a Nada function hands back to its caller — the result of a call, of `reduce`, an element type of `map` — is a
+    run-time value whatever class the function declares: for every declared return class (the literal classes too) and every
+    mix of literal and non-literal parameters, either the declaration / the use is rejected or the truth test of the result raises."""
+    import nada_dsl as D
+    from nada_dsl.program_io import Input as RawInput
+    bad, n = [], 0
+    bases = {"bool": (D.Boolean, D.PublicBoolean, D.SecretBoolean, lambda: D.Boolean(False)),
+             "int": (D.Integer, D.PublicInteger, D.SecretInteger, lambda: D.Integer(0)),
+             "uint": (D.UnsignedInteger, D.PublicUnsignedInteger, D.SecretUnsignedInteger, lambda: D.UnsignedInteger(0))}
+    for base, (L, P, S, zero) in bases.items():
+        for R in (L, P, S):
+            for X in (L, P, S):
+                reset_globals()
+                party = D.Party("p")
+                src = S(RawInput("src", party))
+                arr = D.Array(S(RawInput("arr", party)), size=3)
+                shapes = {
+                    "keep(acc: R, x: X) -> R: return acc": (lambda acc, x: acc, {"acc": R, "x": X}),
+                    "first(x: X, acc: R) -> R: return acc": (lambda x, acc: acc, {"x": X, "acc": R}),
+                }
+                for text, (body, args_ty) in shapes.items():
+                    label = text.replace("R", R.__name__).replace("X", X.__name__)
+                    try:
+                        f = D.nada_fn(body, args_ty=args_ty, return_ty=R)
+                    except Exception:  # pylint: disable=broad-except
+                        continue          # the declaration is rejected: fine
+                    init = zero() if R is L else R(RawInput(f"init{n}", party))
+                    uses = {"arr.reduce(f, init)": lambda f=f, init=init: arr.reduce(f, init)} if list(args_ty)[0] == "acc" else {}
+                    uses["f(v, w)"] = (lambda f=f, init=init: f(init, src)) if list(args_ty)[0] == "acc" else (lambda f=f, init=init: f(src, init))
+                    for utext, use in uses.items():
+                        try:
+                            r = use()
+                        except Exception:  # pylint: disable=broad-except
+                            continue      # the use is rejected: fine
+                        n += 1
+                        from nada_dsl.nada_types import NadaType
+                        if not isinstance(r, NadaType):
+                            bad.append((f"{label}; {utext}", f"returned the plain Python value {r!r}"))
+                        elif kind(lambda r=r: bool(r)) != "raises" or kind(lambda r=r: 1 if r else 2) != "raises":
+                            bad.append((f"{label}; {utext}", f"returned a {type(r).__name__} whose truth value Python can read: `if {utext}:` silently takes a "
+                                                            "branch although the result exists only when the program runs"))
+    reset_globals()
+    return bad, n
+
+
 def run(res, tier):
     rec_bad, nrec = recycled_fresh(12 if tier == "quick" else 100)
     for text, why in rec_bad[:2]:
@@ -415,6 +461,9 @@ def run(res, tier):
     alias_bad, nalias = aliasing_results()
     for text, why in alias_bad[:4]:
         res.violation({"property": "C07", "kind": "aliased-member", "expr": text, "why": why}, f"{text}: {why}")
+    fn_bad, nfn = function_results()
+    for text, why in fn_bad[:4]:
+        res.violation({"property": "C07", "kind": "function-result", "expr": text, "why": why}, f"{text}: {why}")
     comp_bad, ncomp = compound_results()
     for text, why in comp_bad[:4]:
         res.violation({"property": "C07", "kind": "compound", "expr": text, "why": why}, f"{text}: {why}")
@@ -482,7 +531,7 @@ def run(res, tier):
                 "each also used as condition / ordering / membership); non-trivial = distinct (class, route, other) triples",
         "classes": [c.__name__ for c in classes],
         "protocol_model_disagreements": len(diffs),
-        "mixed_literal_operand_results_checked": nmixed, "compound_value_routes_checked": ncomp, "comparisons_after_dropped_literals": nrec,
+        "mixed_literal_operand_results_checked": nmixed, "compound_value_routes_checked": ncomp, "function_results_checked": nfn, "comparisons_after_dropped_literals": nrec,
         "array_walks_checked": len(arr_rows), "array_provenances": sorted({p for p, _, _ in arr_rows}),
         "samples": samples,
     })
@@ -499,6 +548,12 @@ def replay(obj):
         return 1 if bad else 0
     if obj.get("kind") == "recycled":
         bad = recycled_fresh(100)[0]
+        print(bad or "ok")
+        if bad:
+            print("VIOLATION property=C07 replay=(replayed)")
+        return 1 if bad else 0
+    if obj.get("kind") == "function-result":
+        bad = [b for b in function_results()[0] if b[0] == obj["expr"]]
         print(bad or "ok")
         if bad:
             print("VIOLATION property=C07 replay=(replayed)")
